@@ -14,12 +14,15 @@ from attr import evolve
 from ..errors import PropertyError
 from . import FloatProperty
 from .any import AnyProperty
+from .const import ConstProperty
 from .enum_property import EnumProperty
 from .int import IntProperty
 from .list_property import ListProperty
+from .model_property import ModelProperty
 from .property import Property
 from .protocol import PropertyProtocol
 from .string import StringProperty
+from .union import UnionProperty
 
 PropertyT = TypeVar("PropertyT", bound=PropertyProtocol)
 
@@ -84,6 +87,19 @@ def _merge_same_type(prop1: Property, prop2: Property) -> Property | None | Prop
         if isinstance(inner_property, PropertyError):
             return PropertyError(detail=f"can't merge list properties: {inner_property.detail}")
         prop1.inner_property = inner_property
+
+    if isinstance(prop1, ConstProperty) and isinstance(prop2, ConstProperty) and prop1.value != prop2.value:
+        return PropertyError(detail=f"can't merge const {prop1.value.python_code} with const {prop2.value.python_code}")
+
+    if isinstance(prop1, ModelProperty) and isinstance(prop2, ModelProperty) and prop1.class_info != prop2.class_info:
+        return PropertyError(detail=f"can't merge model {prop1.class_info.name} with model {prop2.class_info.name}")
+
+    if isinstance(prop1, UnionProperty) and isinstance(prop2, UnionProperty):
+        if [p.get_type_string() for p in prop1.inner_properties] != [p.get_type_string() for p in prop2.inner_properties]:
+            return PropertyError(
+                detail=f"can't merge union {prop1.get_type_string(no_optional=True)} "
+                f"with union {prop2.get_type_string(no_optional=True)}"
+            )
 
     # For all other property types, there aren't any special attributes that affect validation, so just
     # apply the rules for common attributes like "description".
